@@ -238,6 +238,13 @@ def T5(h):
     h.restore(t[5], [(oid(1), b'a3', None)], status='p')
 
 
+def T5C(h):
+    """T5 (whose last transaction was copied in with status 'p'), then ordinary commits: they carry status ' '"""
+    T5(h)
+    h.commit([(oid(1), b'a4-after-the-copy'), (oid(3), b'c1')], b'u', b'ordinary commit after a restored packed transaction')
+    h.commit([(oid(3), b'c2')])
+
+
 def T2L(h):
     """T2 followed by a transaction that touches only a low oid (oids under two 6-byte prefixes exist)"""
     T2(h)
@@ -278,7 +285,7 @@ def TBIG(h):
     h.commit([(oid(2), b'b-small')], b'u', b'small')
 
 
-FILE_TEMPLATES = {'T1': T1, 'T2': T2, 'T3': T3, 'T4': T4, 'T5': T5, 'T6': T6, 'T10': T10, 'T2L': T2L, 'T3E': T3E, 'TE': TE, 'TBIG': TBIG, 'TS': TS, 'TX': TX}
+FILE_TEMPLATES = {'T1': T1, 'T2': T2, 'T3': T3, 'T4': T4, 'T5': T5, 'T5C': T5C, 'T6': T6, 'T10': T10, 'T2L': T2L, 'T3E': T3E, 'TE': TE, 'TBIG': TBIG, 'TS': TS, 'TX': TX}
 MAPPING_TEMPLATES = {'T1': T1, 'T2': T2, 'T3': T3}
 
 
